@@ -108,6 +108,19 @@ func c18Sites(c *Ctx) []panicSite {
 				}
 				s := mk("type-assert", in, trimPath(ssax.Path(x.X))+".("+types.TypeString(x.AssertedType, shortQ)+")")
 				s.Status, s.Why = proveAssert(f, x)
+			case *ssa.MakeSlice:
+				// make([]T, n, m) panics when a size is negative or exceeds the address space
+				for _, sz := range []ssa.Value{x.Len, x.Cap} {
+					if _, isC := ssax.ConstInt(sz); isC {
+						continue
+					}
+					if lenArg(sz) != nil {
+						continue // the length of something that already exists
+					}
+					s := mk("makeslice", in, trimPath(npath(sz)))
+					s.Status, s.Why = proveSize(f, sz, in)
+					break
+				}
 			case *ssa.Panic:
 				s := mk("panic", in, "panic")
 				s.Status, s.Why = "unproved", "explicit panic"
@@ -223,6 +236,89 @@ func provedByValidationLoop(f *ssa.Function, v ssa.Value, at ssa.Instruction) bo
 		}
 	}
 	return false
+}
+
+// proveSize: the size of a make() is a sum/product of lengths of existing values and constants, or lies behind both a
+// lower-bound test (>= 0) and an upper-bound test against a constant.
+func proveSize(f *ssa.Function, sz ssa.Value, at ssa.Instruction) (string, string) {
+	var fromLens func(v ssa.Value, d int) bool
+	fromLens = func(v ssa.Value, d int) bool {
+		if d > 5 {
+			return false
+		}
+		if k, ok := ssax.ConstInt(v); ok {
+			return k >= 0
+		}
+		if lenArg(v) != nil {
+			return true
+		}
+		switch x := ssax.Resolve(v).(type) {
+		case *ssa.BinOp:
+			if x.Op == token.ADD || x.Op == token.MUL {
+				return fromLens(x.X, d+1) && fromLens(x.Y, d+1)
+			}
+			// len(a) - k / len(a)/k with constants: still bounded above by len(a); negative is possible for SUB
+			if x.Op == token.QUO {
+				return fromLens(x.X, d+1)
+			}
+		case *ssa.Convert:
+			return fromLens(x.X, d+1)
+		case *ssa.Phi:
+			for _, e := range x.Edges {
+				if e == ssa.Value(x) {
+					continue
+				}
+				if !fromLens(e, d+1) {
+					return false
+				}
+			}
+			return true
+		}
+		return false
+	}
+	if fromLens(sz, 0) {
+		return "proved", "size is built from lengths of existing values and non-negative constants"
+	}
+	szp := npath(sz)
+	lo, hi := false, false
+	for _, cd := range ssax.Conds(f) {
+		if cd.Y == nil || npath(cd.X) != szp {
+			continue
+		}
+		k, ok := ssax.ConstInt(cd.Y)
+		if !ok {
+			continue
+		}
+		var e *ssax.Edge
+		switch {
+		case (cd.Op == token.GEQ && k >= 0) || (cd.Op == token.GTR && k >= -1):
+			e = &ssax.Edge{From: cd.If.Block(), Succ: 0}
+			if !ssax.ReachableAvoiding(f, at, []ssax.Edge{*e}, nil) {
+				lo = true
+			}
+		case (cd.Op == token.LSS && k >= 0) || (cd.Op == token.LEQ && k >= -1):
+			// true edge bounds above; false edge bounds below (for k <= 0)
+			e = &ssax.Edge{From: cd.If.Block(), Succ: 0}
+			if !ssax.ReachableAvoiding(f, at, []ssax.Edge{*e}, nil) {
+				hi = true
+			}
+			if (cd.Op == token.LSS && k == 0) || (cd.Op == token.LEQ && k == -1) {
+				e2 := ssax.Edge{From: cd.If.Block(), Succ: 1}
+				if !ssax.ReachableAvoiding(f, at, []ssax.Edge{e2}, nil) {
+					lo = true
+				}
+			}
+		case cd.Op == token.GTR || cd.Op == token.GEQ:
+			e2 := ssax.Edge{From: cd.If.Block(), Succ: 1}
+			if !ssax.ReachableAvoiding(f, at, []ssax.Edge{e2}, nil) {
+				hi = true
+			}
+		}
+	}
+	if lo && hi {
+		return "proved", "size lies behind a lower-bound and a constant upper-bound test"
+	}
+	return "unproved", "make() with a size taken from the input and not bounded: a negative or huge value panics (makeslice: len/cap out of range)"
 }
 
 func isLoadedPointer(v ssa.Value) bool {
